@@ -44,6 +44,39 @@ def existsChild (t : PTree) (n : String) : Bool := t.children.any (·.name == n)
 def selectIdx (cs : List PTree) (tag : String) : List Nat :=
   (cs.zipIdx.filter (fun (c, _) => wildcmp tag.toList c.name.toList)).map (·.2)
 
+/-! ## ResolveLinks: a node with a `link` attribute takes over, from each named sub-package file in turn, the attributes it does not
+have itself and all children of the package root; then the children (the spliced ones included) are resolved -/
+
+/-- `Tokenizer(link, " ,")`: non-empty pieces between blanks and commas -/
+def linkTokensAux : List Char → List Char → List String → List String
+  | [], cur, acc => (if cur.isEmpty then acc else String.ofList cur.reverse :: acc).reverse
+  | c :: cs, cur, acc =>
+    if c == ' ' || c == ',' then linkTokensAux cs [] (if cur.isEmpty then acc else String.ofList cur.reverse :: acc)
+    else linkTokensAux cs (c :: cur) acc
+def linkTokens (s : String) : List String := linkTokensAux s.toList [] []
+
+/-- one package spliced into a node: missing attributes, all children appended -/
+def splice (t root : PTree) : PTree :=
+  node t.name t.value (root.attrs.foldl (fun a kv => if a.any (·.1 == kv.1) then a else insertAttr kv.1 kv.2 a) t.attrs) (t.children ++ root.children)
+
+/-- all packages named by the `link` attribute, in order; `none` when a file is missing (the code throws) -/
+def spliceAll (pkgs : List (String × PTree)) (t : PTree) : Option PTree :=
+  match t.attr "link" with
+  | none => some t
+  | some l => (linkTokens l).foldl (fun acc path => match acc, pkgs.lookup path with
+      | some a, some root => some (splice a root)
+      | _, _ => none) (some t)
+
+def resolveLinks (pkgs : List (String × PTree)) : Nat → PTree → Option PTree
+  | 0, _ => none
+  | fuel + 1, t =>
+    match spliceAll pkgs t with
+    | none => none
+    | some t1 =>
+      match t1.children.mapM (resolveLinks pkgs fuel) with
+      | some cs => some (node t1.name t1.value t1.attrs cs)
+      | none => none
+
 /-! ## CheckUserInput -/
 def checkUserInput : Nat → PTree → PTree → Except String Unit
   | 0, _, _ => .error "fuel"
